@@ -3,6 +3,7 @@ module verif
 go 1.22
 
 require (
+	github.com/anishathalye/porcupine v1.3.0
 	github.com/cybergarage/go-logger v1.3.4
 	github.com/cybergarage/go-redis v0.0.0
 	github.com/cybergarage/go-tracing v1.1.3
